@@ -1179,16 +1179,36 @@ func c10CaseQuota(t *testing.T, h *vHarness, r *vRand, cg *c10Cgroup, beDir stri
 	h.Tag("kind:quota")
 	node := &corev1.Node{ObjectMeta: metav1.ObjectMeta{Name: "n"}, Status: corev1.NodeStatus{
 		Capacity: corev1.ResourceList{corev1.ResourceCPU: *resource.NewMilliQuantity(capMilli, resource.DecimalSI)}}}
-	cg.write(t, beDir, system.CPUCFSQuota, strconv.FormatInt(cur, 10)+"\n")
-	s, stop := c10NewSuppress(nil)
+	// cgroup v1: cpu.cfs_quota_us = "<n>" | "-1";  cgroup v2: cpu.max = "<n> <period>" | "max <period>"
+	v2 := r.Chance(1, 3)
+	quotaFile := system.Resource(system.CPUCFSQuota)
+	initial := strconv.FormatInt(cur, 10) + "\n"
+	if v2 {
+		h.Tag("quota:cgroup-v2")
+		quotaFile = system.CPUCFSQuotaV2
+		initial = strconv.FormatInt(cur, 10) + " 100000\n"
+		if cur == -1 {
+			initial = "max 100000\n"
+		}
+		system.UseCgroupsV2.Store(true)
+		defer system.UseCgroupsV2.Store(false)
+	}
+	cg.write(t, beDir, quotaFile, initial)
+	s, stop := c10NewSuppress(nil) // picks the cgroup reader of the current cgroup version
 	defer close(stop)
 	if h.Guard(func() { s.adjustByCfsQuota(resource.NewMilliQuantity(budget, resource.DecimalSI), node) }) {
 		h.Obs("panic")
 		h.Fail("C10:panic", "adjustByCfsQuota panicked")
 		return
 	}
-	raw := cg.read(t, beDir, system.CPUCFSQuota)
-	got, err := strconv.ParseInt(strings.TrimSpace(raw), 10, 64)
+	raw := cg.read(t, beDir, quotaFile)
+	first := strings.TrimSpace(raw)
+	if v2 && raw == initial { // untouched cpu.max: "<quota> <period>"
+		if first = strings.Fields(raw)[0]; first == "max" {
+			first = "-1"
+		}
+	}
+	got, err := strconv.ParseInt(first, 10, 64)
 	if err != nil {
 		h.Obs("quota unparsable")
 		h.Fail("C10:quota-unparsable", "cpu.cfs_quota_us content %q", raw)
